@@ -28,10 +28,10 @@ class VecCfg:
         return d
     def cfgline(self):
         l = (f'cfg kind=vec fl={self.fl} n={self.n} st={self.st} cat={self.cat} '
-             f'realloc={1 if self.alloc == 0 else 0} pool={self.pool}')
+             f'realloc={1 if self.alloc in (0, 2) else 0} akind={self.alloc} pool={self.pool}')
         if self.partner:
             f2, n2, s2, a2 = self.partner
-            l += f' fl2={f2} n2={n2} st2={s2} realloc2={1 if a2 == 0 else 0} pool2={self.pool2}'
+            l += f' fl2={f2} n2={n2} st2={s2} realloc2={1 if a2 in (0, 2) else 0} akind2={a2} pool2={self.pool2}'
         return l
     def kmax(self):
         return ST_MAX[self.st]
